@@ -218,7 +218,12 @@ pub fn run(ctx: &mut Ctx, prop: &str) {
         if !ctx.mine() {
             continue;
         }
-        for y in [json!(1), json!("1"), json!(0), json!(true), json!(null), json!([1]), json!("")] {
+        let mut partners = vec![json!(1), json!("1"), json!(0), json!(true), json!(null), json!([1]), json!("")];
+        // for a literal with a foreign character in it: the numbers it would denote if the character were swallowed
+        if x.as_str().map(|t| t.chars().count() > 3).unwrap_or(false) {
+            partners.extend(al::mutated_literal_bases());
+        }
+        for y in partners {
             ctx.edge();
             for k in ops {
                 ctx.check(&format!("{}:ws-block", k), &op(k, vec![x.clone(), y.clone()]), &null);
